@@ -55,6 +55,20 @@ TIME_UNITS = {"s": 1.0, "ms": 1e-3, "min": 60.0, "ds": 0.1, "h": 3600.0}
 
 
 def sampling_cfg(rng):
+    """The property quantifies over SORTED sample-time lists: a list whose entries are written in different units may lose
+    its order by one rounding of the conversion (two equal times, one written "0.6 s" and one 5.999999999999999 ds);
+    such a list is outside the property's domain and is drawn again."""
+    from .. import engine_rec
+    for _ in range(50):
+        kind, c = _sampling_cfg(rng)
+        sc = engine_rec.make_script(c)
+        ts = [float(x) for x in sc.t_sample.convert(sc.units_system).value]
+        if all(a <= b for a, b in zip(ts, ts[1:])):
+            return kind, c
+    raise MachineryError("could not draw a sorted sample-time list")
+
+
+def _sampling_cfg(rng):
     kind = rng.choice(H.KINDS)
     system = rng.choice(["decay", "birth", "rev"])
     policy = rng.choice(["on_t_sample", "on_t_sample", "on_iteration", "on_interval", "on_interval", "no_sampling"])
